@@ -38,6 +38,13 @@ def run(ctx):
             "its initial placeholder, so the macrovector is not a key of the lookup table (%s)" % e.message,
         )
         return
+    # the object model fixes one iteration order for the parsed metric map: what the rules below
+    # establish holds for every field order only if the construction never iterates that map
+    # (C05's rule, discharged here because C02's argument rests on it)
+    from .. import rules_flow as RF
+    from ..rules_parse import RelabelLedger
+
+    RF.check_order_iter(ctx, RelabelLedger(led, "C02.order", keep=("C05.order.iter",), strip="C05.order.iter"), 4)
     n = R4.check_lookup(ctx, led)
     led.require_min("C02.lookup", n, 250, "lookup rows")
     R4.check_lookup_shape(ctx, led)
